@@ -12,6 +12,7 @@ import Gts.Bridge.CliLoops
 import Gts.Lemmas.GoListSort
 namespace Gts.Bridge
 open Gts
+set_option linter.unusedSimpArgs false  -- the guard forms: only the ones the source uses are needed
 
 /-! ### the cut positions -/
 
@@ -148,14 +149,17 @@ theorem splitStep_eq (mo : List Int → List Int) (hmo : ∀ l, (mo l).Perm l) (
   cases hrr : locate seq with
   | nil => simp
   | cons r0 rest =>
-    have hlen0 : ¬ (((r0 :: rest).length : Int) = 0) := by simp only [List.length_cons]; omega
-    simp only [hlen0, if_false, List.nil_append]
-    by_cases h1 : ((r0 :: rest).length : Int) = 1 ∧ circular = true
-    · have h1' : (r0 :: rest).length = 1 ∧ circular = true := ⟨by omega, h1.2⟩
-      rw [if_pos h1, if_pos h1']
+    -- the guards on len(rr), whatever form they are written in, are the model's
+    obtain ⟨z1, z2, z3, z4⟩ := guard_zero_forms (r0 :: rest).length
+    obtain ⟨o1, o2, o3, o4, o5, o6, o7, o8⟩ :=
+      guard_one_forms (r0 :: rest).length (circular = true) (by simp)
+    have hlen0 : ¬ ((r0 :: rest).length = 0) := by simp
+    simp only [gt_iff_lt, ge_iff_le, z1, z2, z3, z4, o1, o2, o3, o4, o5, o6, o7, o8, hlen0, if_false,
+      List.nil_append]
+    by_cases h1 : (r0 :: rest).length = 1 ∧ circular = true
+    · rw [if_pos h1, if_pos h1]
       simp only [Reg.head, Reg.headList]
-    · have h1' : ¬ ((r0 :: rest).length = 1 ∧ circular = true) := fun h => h1 ⟨by omega, h.2⟩
-      rw [if_neg h1, if_neg h1']
+    · rw [if_neg h1, if_neg h1]
       -- the cut positions
       generalize hkeys : ((r0 :: rest).map Cli.cutOf).foldl Gen.goSetAdd [] = keys
       have hlenk : (mo keys).length = keys.length := (hmo keys).length_eq
@@ -169,13 +173,16 @@ theorem splitStep_eq (mo : List Int → List Int) (hmo : ∀ l, (mo l).Perm l) (
         cases heads with
         | nil => simp at this
         | cons a l => exact ⟨a, l, rfl⟩
-      by_cases h2 : circular = true ∧ (heads.length : Int) = 1
-      · have h2' : circular = true ∧ heads.length = 1 := ⟨h2.1, by omega⟩
-        rw [if_pos h2, if_pos h2']
+      obtain ⟨p1, p2, p3, p4, p5, p6, p7, p8⟩ :=
+        guard_one_forms heads.length (circular = true) (by rw [hh]; simp)
+      have pc : (circular = true ∧ heads.length = 1) = (heads.length = 1 ∧ circular = true) :=
+        propext And.comm
+      simp only [gt_iff_lt, ge_iff_le, p1, p2, p3, p4, p5, p6, p7, p8, pc]
+      by_cases h2 : heads.length = 1 ∧ circular = true
+      · rw [if_pos h2, if_pos h2]
         subst hh
         simp only [goAt_zero_cons, List.headD_cons]
-      · have h2' : ¬ (circular = true ∧ heads.length = 1) := fun h => h2 ⟨h.1, by omega⟩
-        rw [if_neg h2, if_neg h2']
+      · rw [if_neg h2, if_neg h2]
         cases circular with
         | true =>
           obtain ⟨e1, e2, e3⟩ := splits_circular heads a l hh
